@@ -12,7 +12,8 @@ def drive (body impl : String) : Verdict :=
   let kv := (words impl).map (fun x => x.splitOn "=")
   let get := fun (k : String) => ((kv.find? (fun p => p.head? == some k)).bind (fun p => p[1]?)).getD "?"
   let abn := (words impl).any (fun x => x == "ABORT" || x == "HANG")
-  let generous := budget ≥ 3000
+  -- a generous budget for a modest number of tasks; hundreds of sleeping tasks on a loaded machine may need longer
+  let generous := budget ≥ 3000 ∧ n ≤ 40
   let mo := if generous then s!"stop=ok ran={n}/{n} after=rejected" else s!"stop={get "stop"} ran={get "ran"} after=rejected"
   let bad : List String :=
     if abn then [s!"[hang-or-abort] {impl}"] else
